@@ -91,7 +91,7 @@ pub fn c13(run: &Run) -> Vec<String> {
                 "Shutdown" => run.drained,
                 "Loadshed" => run.cfg.discard != Discard::None,
                 "TtlExpired" => j.short_ttl,
-                "RateLimited" => false,
+                "RateLimited" => run.cfg.rate_limited(),
                 _ => false,
             };
             if !ok {
@@ -354,6 +354,39 @@ pub fn c15(run: &Run) -> Vec<String> {
         for (id, x) in &f {
             if x.discards.iter().any(|d| d == "Loadshed") {
                 bad.push(format!("job {id} was load-shed although no discard limit is configured"));
+            }
+        }
+    }
+    // rate limiter: between two moments at which time passed (Advance = 150 ms = refill to the cap) no more jobs
+    // are handed to workers than the bucket can hold; before the first of them no more than its initial balance
+    if run.cfg.rate_limited() {
+        let mut cap = crate::harness::RL_INITIAL;
+        let mut started = 0usize;
+        for (_, e) in &run.events {
+            match e {
+                Ev::Script(s) if s == "Advance" => {
+                    cap = crate::harness::RL_MAX;
+                    started = 0;
+                }
+                Ev::Start { id, .. } => {
+                    started += 1;
+                    if started > cap {
+                        bad.push(format!("job {id} is the {started}th job handed to a worker since time last passed, the leaky bucket holds at most {cap} tokens (history {:?})", run.history));
+                    }
+                }
+                _ => {}
+            }
+        }
+        for (id, x) in &f {
+            let n = x.discards.iter().filter(|d| *d == "RateLimited").count();
+            if n > 1 {
+                bad.push(format!("job {id} was reported as rate-limited {n} times"));
+            }
+        }
+    } else {
+        for (id, x) in &f {
+            if x.discards.iter().any(|d| d == "RateLimited") {
+                bad.push(format!("job {id} was reported as rate-limited although no rate limiter is configured"));
             }
         }
     }
